@@ -127,7 +127,10 @@ def knownMembers : List String :=
   ["@context", "id", "type", "credentialSubject", "issuanceDate", "expirationDate", "proof", "credentialStatus",
    "issuer", "credentialSchema", "evidence", "termsOfUse", "refreshService", "jwt", "_sd_alg"]
 
-def lowerAscii (s : String) : String := String.ofList (s.toList.map Char.toLower)
+/-- the folding `encoding/json` matches member names with (Unicode simple folding restricted to what can meet an ASCII
+    letter: the long s U+017F folds to `s`, the Kelvin sign U+212A to `k`) -/
+def lowerAscii (s : String) : String :=
+  String.ofList (s.toList.map fun c => if c == 'ſ' then 's' else if c == 'K' then 'k' else c.toLower)
 
 /-- two top-level members that match the same known member up to case ("Issuer" next to "issuer"): `encoding/json` would
     decode the last one INTO the known member; the decoder refuses such a document as ambiguous (repair of C07-F3). A lone
